@@ -116,6 +116,8 @@ def verify_contract(reg: Registry, con: Contract, timeout_ms: int = 10000, secon
     res = UnitResult(con.target)
     t_start = time.time()
     is_lemma = con.target.startswith("lemma:")
+    # inline_here=[...]: callees whose real body is executed in place *in this unit only* (elsewhere their contract applies)
+    reg.force_inline = set(con.opts.get("inline_here", ()))
     func = defcls = None
     if not is_lemma:
         func, defcls = reg.resolve(con.target)
@@ -195,6 +197,7 @@ def enumerate_prefixes(reg: Registry, con: Contract, depth: int) -> list:
     from .path import StopAtDepth
 
     is_lemma = con.target.startswith("lemma:")
+    reg.force_inline = set(con.opts.get("inline_here", ()))
     func = defcls = None
     if not is_lemma:
         func, defcls = reg.resolve(con.target)
